@@ -1,3 +1,103 @@
 // Kani harnesses for src/packet/signature/subpacket.rs (child module: sees private items). See /verif/DESIGN.md 8.1 Engine K.
 #![allow(dead_code, unused_imports)]
 use super::*;
+use crate::verif_kani::Sink;
+
+/// RFC 9580 5.2.3.7 (signature subpacket length), written from the RFC text:
+///   1st octet < 192: one octet, length = 1st octet
+///   192 <= 1st octet < 255: two octets, length = ((1st - 192) << 8) + 2nd + 192
+///   1st octet == 255: five octets, length = big-endian u32 of octets 2..5
+/// Result: (length, octets consumed).
+fn rfc9580_5_2_3_7(inp: &[u8; 5]) -> (u32, usize) {
+    let o1 = inp[0] as u32;
+    if o1 < 192 {
+        (o1, 1)
+    } else if o1 < 255 {
+        (((o1 - 192) << 8) + (inp[1] as u32) + 192, 2)
+    } else {
+        (((inp[1] as u32) << 24) | ((inp[2] as u32) << 16) | ((inp[3] as u32) << 8) | (inp[4] as u32), 5)
+    }
+}
+
+/// K06 (C05/C19/C04): `SubpacketLength::try_from_reader` on EVERY 5-octet input (it never looks
+/// past the 5th octet): value, stored form and number of octets consumed are those of
+/// RFC 9580 5.2.3.7; never Err, never panics (the u16 arithmetic of the two-octet form cannot
+/// overflow: max is (62 << 8) + 192 + 255 = 16319).  Then the parsed value is written back:
+/// `write_len()` == octets written == octets consumed, and the octets are the input octets.
+/// Complete: loops fully unwound over all 2^40 inputs.
+#[kani::proof]
+#[kani::unwind(6)]
+fn k06_subpacket_length_decode_all_5_octet_inputs() {
+    let bytes: [u8; 5] = kani::any();
+    let mut rd: &[u8] = &bytes[..];
+    let r = SubpacketLength::try_from_reader(&mut rd);
+    let consumed = 5 - rd.len();
+    let (want, used) = rfc9580_5_2_3_7(&bytes);
+    let l = match r {
+        Ok(l) => l,
+        Err(_) => {
+            assert!(false, "complete subpacket length rejected");
+            return;
+        }
+    };
+    assert!(consumed == used, "octets consumed differ from RFC 9580 5.2.3.7");
+    assert!(l.len() == want as usize, "subpacket length value differs from RFC 9580 5.2.3.7");
+    match l {
+        SubpacketLength::One(_) => assert!(used == 1),
+        SubpacketLength::Two(_) => assert!(used == 2),
+        SubpacketLength::Five(_) => assert!(used == 5),
+    }
+    // write back: same octets, write_len() agrees
+    let mut w = Sink::new();
+    let wr = l.to_writer(&mut w);
+    assert!(wr.is_ok());
+    assert!(l.write_len() == w.len, "SubpacketLength::write_len() != octets written");
+    assert!(w.len == used, "re-encoded length uses a different number of octets");
+    let j: usize = kani::any();
+    if j < used {
+        assert!(w.buf[j] == bytes[j], "re-encoded subpacket length differs from the parsed octets");
+    }
+    kani::cover!(bytes[0] == 254 && bytes[1] == 255 && l.len() == 16319);
+    kani::cover!(bytes[0] == 255 && l.len() == 0x01020304);
+    kani::cover!(bytes[0] == 191);
+}
+
+/// K06 (C05/C19): the three stored forms over their whole documented ranges (One < 192,
+/// Two in 192..=16319, Five any u32): `write_len()` == octets `to_writer` emits, the octets are the
+/// RFC 9580 5.2.3.7 encoding of that form, and `encode(len)` picks the minimal form.
+/// Complete over the documented ranges (the ranges are the type's invariant: input shaping).
+#[kani::proof]
+#[kani::unwind(6)]
+fn k06_subpacket_length_write_all_forms() {
+    let v: u32 = kani::any();
+    let form: u8 = kani::any();
+    let l = if form == 0 {
+        kani::assume(v < 192);
+        SubpacketLength::One(v as u8)
+    } else if form == 1 {
+        kani::assume(v >= 192 && v <= 16319);
+        SubpacketLength::Two(v as u16)
+    } else {
+        SubpacketLength::Five(v)
+    };
+    let mut w = Sink::new();
+    let wr = l.to_writer(&mut w);
+    assert!(wr.is_ok());
+    assert!(l.write_len() == w.len, "SubpacketLength::write_len() != octets written");
+    // decode what was written with the RFC rule: must give the same value and use all octets
+    let mut first5 = [0u8; 5];
+    first5.copy_from_slice(&w.buf[..5]);
+    let (back, used) = rfc9580_5_2_3_7(&first5);
+    assert!(used == w.len, "encoding is not self-delimiting as RFC 9580 5.2.3.7");
+    assert!(back == v, "encoded subpacket length decodes to a different value");
+    // encode() = minimal form
+    let e = SubpacketLength::encode(v);
+    match e {
+        SubpacketLength::One(x) => assert!(v < 192 && x as u32 == v),
+        SubpacketLength::Two(x) => assert!(v >= 192 && v <= 16319 && x as u32 == v),
+        SubpacketLength::Five(x) => assert!(v > 16319 && x == v),
+    }
+    kani::cover!(form == 1 && v == 16319 && w.buf[0] == 254 && w.buf[1] == 255);
+    kani::cover!(form == 2 && v == 5 && w.len == 5);
+    kani::cover!(form == 0 && v == 191);
+}
